@@ -389,6 +389,57 @@ def r7_bounded_exp(ctx):
     r.check(okp, "loop/progress", "e >>= 1 each iteration", "progress: %s (loop variable %s)" % ([sig(q.novers(e))[:120] for e in shr], sig(subj)[:60] if subj is not None else "?"))
 
 
+def r7_exp_algorithm(ctx):
+    """'bit-bounded exponentiation' computes b^e: square-and-multiply over the bits of e from the lowest — multiply the result by the running base exactly when the
+    lowest bit of e is set, square the base every round.  (R7 above only bounds the number of rounds.)"""
+    r = ctx.rule("R7b", "Exp: square-and-multiply — res *= base iff the low bit of e is set; base *= base every round; result = res, starting from 1 (wrapping products)", positional=False)
+    st, variants, table, nowild = _step_table(ctx, r)
+    a = table.get("Exp")
+    r.anchor(a and a["closure"], "Exp arm closure")
+    cb = a["closure"]
+    loops = cb.loops()
+    if len(loops) != 1:
+        r.undecided("exp/shape", "%d loops in the Exp closure" % len(loops))
+        return
+    h, blocks, latches = loops[0]
+    muls = [(bi, e) for bi, e in q.all_call_exprs(cb) if bi in blocks and e[0] == "call" and e[1].split("::")[-1] in ("overflowing_mul", "wrapping_mul") and len(e[2]) == 2]
+    other = [(bi, e) for bi, e in q.all_call_exprs(cb) if bi in blocks and e[0] == "call" and e[1].split("::")[-1] in ("overflowing_add", "wrapping_add", "overflowing_sub", "wrapping_sub", "saturating_mul", "checked_mul", "overflowing_pow", "wrapping_pow")]
+    sq = [(bi, e) for bi, e in muls if q.novers(mir.strip(e[2][0])) == q.novers(mir.strip(e[2][1]))]
+    mu = [(bi, e) for bi, e in muls if (bi, e) not in sq]
+    if other and len(muls) < 2:
+        r.violation("exp/products", "the Exp loop computes %s where square-and-multiply has two wrapping products: the result is not b^e" % sorted({e[1].split("::")[-1] for bi, e in other}), cb.where(other[0][0]))
+        return
+    if len(sq) != 1 or len(mu) != 1:
+        r.undecided("exp/shape", "the loop body is not one squaring and one multiplication (%d / %d)" % (len(sq), len(mu)))
+        return
+    body_succ = [x for x in cb.succs(h) if x in blocks]
+    wo = set()
+    for s0 in body_succ:
+        wo |= cb.reachable(s0, removed=[sq[0][0]])
+    r.check(not any(l in wo for l in latches), "exp/square-every-round", "the base is squared every round", "a round can finish without squaring the base", cb.where(sq[0][0]))
+    bits = [(e_, cn, bi_) for e_, cn, bi_ in q.cmp_atoms(cb) if bi_ in blocks and ("BitAnd(" in cn or "::bitand(" in cn) and "ONE" in cn]
+    if len(bits) != 1:
+        bad = [(e_, cn, bi_) for e_, cn, bi_ in q.cmp_atoms(cb) if bi_ in blocks and ("BitOr(" in cn or "BitXor(" in cn or "::bitor(" in cn or "::bitxor(" in cn) and "ONE" in cn]
+        if bad:
+            r.violation("exp/low-bit", "the multiplication is guarded by %s, not by the low bit of the exponent (e & 1)" % bad[0][1][:100], cb.where(bad[0][2]))
+        else:
+            r.undecided("exp/low-bit", "low-bit test not read (%s)" % [b_[1][:60] for b_ in bits])
+        return
+    e_, cn, bi_ = bits[0]
+    op = q.as_cmp(e_)[0]
+    bit_set = 1 if (op == "Eq" and cn.count("ONE") >= 2) or (op == "Ne" and "ZERO" in cn) else (0 if (op == "Ne" and cn.count("ONE") >= 2) or (op == "Eq" and "ZERO" in cn) else None)
+    if bit_set is None:
+        r.undecided("exp/low-bit", "low-bit test %s not read" % cn[:100])
+        return
+    f1 = force(cb, {e_: bit_set})
+    f0 = force(cb, {e_: 1 - bit_set})
+    r.check(mu[0][0] in f1.reach_from(bi_), "exp/bit-set=>multiply", "low bit set ⇒ res *= base", "with the low bit of e set the result is not multiplied by the base", cb.where(mu[0][0]))
+    r.check(mu[0][0] not in f0.reach_from(bi_), "exp/bit-clear=>skip", "low bit clear ⇒ res unchanged", "with the low bit of e clear the result is still multiplied by the base", cb.where(mu[0][0]))
+    margs = {sig(q.novers(mir.strip(x))) for x in mu[0][1][2]}
+    base = sig(q.novers(mir.strip(sq[0][1][2][0])))
+    r.check(any(base in m_ for m_ in margs), "exp/multiply-by-base", "res is multiplied by the running base", "res is multiplied by %s, the squared variable is %s" % (sorted(margs), base), cb.where(mu[0][0]))
+
+
 NARROW = ("U256::low", "U256::as_u8", "U256::as_u16", "U256::as_u32", "U256::as_u64", "U256::as_u128", "U256::as_usize", "U256::as_i8", "U256::as_i16", "U256::as_i32", "U256::as_i64", "U256::as_i128", "U256::as_isize", "U256::into_words", "U256::low_mut")
 
 def r8_narrowing(ctx):
@@ -564,6 +615,8 @@ def r10_sigeok_bounds(ctx):
             r.violation("sigeok/%s/outcome" % role, "the signature is still verified when the %s exceeds its bound" % role, c.where(vbi))
         elif outs == [want]:
             r.ok("sigeok/%s/outcome" % role, "%s too long ⇒ %s" % (role, want))
+        elif any(o == "Option::Some{0: Value::from_bool(1)}" for o in outs):
+            r.violation("sigeok/%s/outcome" % role, "an over-long %s is answered with TRUE (%s): a signature check that succeeds without any signature being verified" % (role, outs), c.where(good[2]))
         elif all(o in ("Option::Some{0: Value::from_bool(0)}", "Option::None{}") for o in outs) and outs:
             r.violation("sigeok/%s/outcome" % role, "an over-long %s gives %s, the specification says %s" % (role, outs, want), c.where(good[2]))
         else:
@@ -596,4 +649,4 @@ def shared(ctx):
     core.import_rules(ctx, [c11.r3_forward_pc, c11.r4_nesting, c11.r5_length_guards], "X11")
 
 
-RULES = [r1_dispatch, r2_alu, r3_failure_discipline, r4_determinism, r5_result, r6_layouts, r7_bounded_exp, r8_narrowing, r9_bounds_on_full_width, r10_sigeok_bounds, shared]
+RULES = [r1_dispatch, r2_alu, r3_failure_discipline, r4_determinism, r5_result, r6_layouts, r7_bounded_exp, r7_exp_algorithm, r8_narrowing, r9_bounds_on_full_width, r10_sigeok_bounds, shared]
